@@ -475,3 +475,28 @@ add("main-loop-skips-iterations-while-delta-is-large", F, ["C07"], "dfols/solver
 add("projection-initialiser-counter-not-advanced-on-one-path", F, ["C07"], "dfols/controller.py",
     "                    # rank was improved, update D_rank for next comparison\n                    D_rank = D_rank2\n                k += 1\n\n            # Try random combination of negatives...",
     "                    # rank was improved, update D_rank for next comparison\n                    D_rank = D_rank2\n                    k += 1\n\n            # Try random combination of negatives...", "C07-18")
+
+# ---- C07-19: an exit returned by a progress call is tested before the next iteration
+add("safety-step-continues-before-testing-the-exit", F, ["C07"], "dfols/solver.py",
+    "                did_fix_geom, exit_info = control.check_and_fix_geometry(distsq, update_delta, number_of_samples, params)\n                if dnorm > control.rho:\n                    control.last_successful_iter = current_iter\n\n                if exit_info is not None:\n                    if exit_info.able_to_do_restart() and params(\"restarts.use_restarts\") and params(\n                            \"restarts.use_soft_restarts\"):\n                        number_of_samples = max(nsamples(control.delta, control.rho, current_iter, nruns_so_far), 1)\n                        exit_info = control.soft_restart(number_of_samples, nruns_so_far, params,\n                                                         x_in_abs_coords_to_save=None, rvec_to_save=None,\n                                                         nsamples_to_save=None)\n                        if exit_info is not None:\n                            nruns_so_far += 1\n                            break  # quit\n                        current_iter = -1",
+    "                did_fix_geom, exit_info = control.check_and_fix_geometry(distsq, update_delta, number_of_samples, params)\n                if dnorm > control.rho:\n                    control.last_successful_iter = current_iter\n                if did_fix_geom and dnorm > control.rho:\n                    continue  # next iteration\n\n                if exit_info is not None:\n                    if exit_info.able_to_do_restart() and params(\"restarts.use_restarts\") and params(\n                            \"restarts.use_soft_restarts\"):\n                        number_of_samples = max(nsamples(control.delta, control.rho, current_iter, nruns_so_far), 1)\n                        exit_info = control.soft_restart(number_of_samples, nruns_so_far, params,\n                                                         x_in_abs_coords_to_save=None, rvec_to_save=None,\n                                                         nsamples_to_save=None)\n                        if exit_info is not None:\n                            nruns_so_far += 1\n                            break  # quit\n                        current_iter = -1", "C07-19")
+
+# ---- C07-12 second clause: loop limit is the capacity, the list holds the points present (pre-repair form of F07m)
+add_multi("restart-geometry-loop-bounded-by-the-capacity", F, ["C07"], [
+    ("dfols/controller.py", "            upper_limit = self.model.npt()  # points held now (fewer than num_pts while still growing)\n", "            upper_limit = self.model.num_pts\n"),
+    ("dfols/controller.py", "            upper_limit = self.model.npt() - 1\n", "            upper_limit = self.model.num_pts - 1\n"),
+], "limit-is-the-capacity")
+
+# ---- C07-20: Gram-Schmidt result tested before normalising (pre-repair form of F07n, one site)
+add("growing-direction-normalised-without-a-test", F, ["C07"], "dfols/controller.py",
+    "        if LA.norm(dirn) == 0.0:\n            dirn = random_dirn  # current directions already span the whole space: keep the random direction\n", "", "C07-20")
+add("s-growing-direction-norm-in-a-local", S, ["C07"], "dfols/controller.py",
+    "        if LA.norm(dirn) == 0.0:\n            dirn = random_dirn  # current directions already span the whole space: keep the random direction\n",
+    "        dirn_norm = LA.norm(dirn)\n        if dirn_norm == 0.0:\n            dirn = random_dirn\n")
+
+# ---- C08-5: division by a Hessian norm that can vanish (pre-repair form of F08d)
+add("pgd-step-length-for-a-zero-hessian", F, ["C08"], "dfols/trust_region.py",
+    "    if L == 0.0:\n        # H = 2*J^T*J = 0 means J = 0, so g = 2*J^T*r = 0 too: the model is constant and there is no step to take\n        # (the step length 1/L below would be infinite and the step NaN)\n        return d, gnew, crvmin\n", "", "C08-5")
+add("s-pgd-zero-hessian-test-reversed", S, ["C08", "C12", "C13"], "dfols/trust_region.py",
+    "    if L == 0.0:\n        # H = 2*J^T*J = 0 means J = 0, so g = 2*J^T*r = 0 too: the model is constant and there is no step to take\n        # (the step length 1/L below would be infinite and the step NaN)\n        return d, gnew, crvmin\n",
+    "    if not L > 0.0:\n        return d, gnew, crvmin\n")
